@@ -6,7 +6,7 @@ from typing import Any, Callable, Optional
 
 from ...code_tools.cascade_namespace import BuiltinCascadeNamespace, CascadeNamespace
 from ...code_tools.code_builder import CodeBuilder
-from ...code_tools.utils import get_literal_expr, get_literal_from_factory
+from ...code_tools.utils import can_be_keyword_arg_name, get_literal_expr, get_literal_from_factory
 from ...common import Loader
 from ...compat import CompatExceptionGroup
 from ...definitions import DebugTrail
@@ -330,7 +330,10 @@ class BuiltinModelLoaderGen(ModelLoaderGen):
 
                 value = state.v_field(field)
                 if param.kind == ParamKind.KW_ONLY or has_skipped_params:
-                    constructor_builder(f"{param.name}={value},")
+                    if can_be_keyword_arg_name(param.name):
+                        constructor_builder(f"{param.name}={value},")
+                    else:
+                        constructor_builder(f"**{{{param.name!r}: {value}}},")
                 elif param.kind == ParamKind.POS_ONLY and has_skipped_params:
                     raise ValueError(
                         "Can not generate consistent constructor call,"
